@@ -819,7 +819,7 @@ _named_number = (
 _rule_named_number = "|".join(
     r"(?P<n_{}>({})\b)".format(n, expr) for n, expr in _named_number
 )
-_rule_named_number = r"({})\s*".format(_rule_named_number)
+_rule_named_number = r"\b({})\s*".format(_rule_named_number)
 
 _durations = [
     (DurationUnit.NIGHTS, r"n[aä]chte?|nights?|[üu]bernachtung"),
@@ -870,7 +870,7 @@ def ruleNamedNumberDuration(ts: datetime, m: RegexMatch) -> Optional[Duration]:
     return None
 
 
-@rule(r"(hal[fb]e?|1/2)(\s+an?)?\s*" + _rule_durations)
+@rule(r"\b(hal[fb]e?|1/2)(\s+an?)?\s*" + _rule_durations)
 def ruleDurationHalf(ts: datetime, m: RegexMatch) -> Optional[Duration]:
     # half day, half hour, 1/2 hour
     for n, _, in _durations:
